@@ -256,7 +256,15 @@ def specPeerCheck (s : LogSt) (b : Nat) (got : String) : List SpecFail :=
         (if latest > known + 100 then
           [⟨"log-snapshot-rule", "no-snapshot", s!"peer {b} fetches operation {known + 1} although the gap {latest}-{known} is above 100"⟩] else [])
       else [⟨"log-snapshot-rule", "wrong-interest", s!"peer {b} at {known} (latest {latest}) asks for {pe}"⟩]
-    replayFail ++ completeFail ++ ruleFail
+    -- told the publisher's CURRENT number, a path, nothing outstanding: the reconstructed set is the announced set
+    let currentFail :=
+      match s.told.find? (·.1 == b) with
+      | some (_, t) =>
+        if t == s.sSeq && s.reachS.contains b && pe == "-" && fe == "0" && set != Spec.sortNat s.sSet then
+          [⟨"log-current", "set-differs", s!"peer {b} was told the publisher's current sequence {t}, has a path and nothing outstanding, but holds {st} while the announced set is {idsText s.sSet}"⟩]
+        else []
+      | none => []
+    replayFail ++ completeFail ++ ruleFail ++ currentFail
   | _, _, _, _, _ => [⟨"log-replay", "unparsable", got⟩]
 
 inductive St where
@@ -460,13 +468,25 @@ def stepLog (s : LogSt) (f : List String) (got : String) : StepResult St :=
           { st := .log { s with peers := setPeer s.peers (b - 1) q' }, expected := some s!"{dumpPeer q'} steps={steps}", spec := fails,
             cov := ["drain"] ++ (if steps ≥ 50 then ["drain-long"] else []), nontrivial := steps > 0 }
     else skip
+  | ["prestart"] =>
+    -- the publisher restarts: new numbering (taken from the implementation's clock), empty table, new log
+    match got.splitOn " " with
+    | ["ok", seq0] =>
+      match seq0.toNat? with
+      | some seq0 =>
+        { st := .log { s with pub := Pub.init (UInt64.ofNat seq0), sSeq := seq0, sSet := [], hist := (seq0, []) :: s.hist, told := [] },
+          expected := none, cov := ["publisher-restart"] }
+      | none => { st := .log s, expected := some "ok <seq0>" }
+    | _ => { st := .log s, expected := some "ok <seq0>" }
   | ["sync", b, off] =>
     match peerOf b, off.toNat? with
     | some (b, q), some off =>
       let high := if off < s.pub.seq.toNat then s.pub.seq - UInt64.ofNat off else s.pub.seq
-      let q' := q.sync high
+      let q' := q.svsReceive high
       let s := if got == "skip" then s else
-        { s with told := (b, if off < s.sSeq then s.sSeq - off else s.sSeq) :: s.told.filter (·.1 != b) }
+        let v := if off < s.sSeq then s.sSeq - off else s.sSeq
+        let prev := ((s.told.find? (·.1 == b)).map (·.2)).getD 0
+        { s with told := (b, max prev v) :: s.told.filter (·.1 != b) }
       let fails := if got == "skip" then [] else specPeerCheck s b got
       let s := notePend s b got
       { st := .log { s with peers := setPeer s.peers (b - 1) q' }, expected := some (dumpPeer q'), spec := fails,
@@ -511,7 +531,7 @@ def step (st : St) (op : String) (got : String) : StepResult St :=
         -- keep the spec replay meaningful even on an op the model does not know
         { st := st, expected := some "skip" }
     | .log s =>
-      if ["ann", "wd", "burst", "sync", "reach", "unreach", "deliver", "timeout", "drain"].contains (f.headD "") then stepLog s f got
+      if ["ann", "wd", "burst", "sync", "prestart", "reach", "unreach", "deliver", "timeout", "drain"].contains (f.headD "") then stepLog s f got
       else { st := st, expected := some "skip" }
 
 end C19Drv
